@@ -124,6 +124,10 @@ class JSONPointer:
         return index
 
     def _getitem(self, obj: Any, key: Any) -> Any:  # noqa: PLR0912
+        if isinstance(obj, str):
+            # Python strings can be indexed, JSON strings have no children.
+            raise JSONPointerTypeError(f"{key}: can't resolve against a string")
+
         try:
             return getitem(obj, key)
         except KeyError as err:
